@@ -28,6 +28,9 @@ const (
 	c12NameU = 0x360 // "u"
 	c12NameH = 0x3a0 // "h"
 	c12NameG = 0x3e0 // "g"
+	// a 32-byte name in the last two words of memory: the key ends exactly where memory ends (as long as the base
+	// program does not grow memory further)
+	c12NameEnd = 0x420
 )
 
 func c12Prefix() []byte {
@@ -40,6 +43,7 @@ func c12Prefix() []byte {
 	p.Mem = append(p.Mem, gen.StrWords(c12NameU, []byte("u"))...)
 	p.Mem = append(p.Mem, gen.StrWords(c12NameH, []byte("h"))...)
 	p.Mem = append(p.Mem, gen.StrWords(c12NameG, []byte("g"))...)
+	p.Mem = append(p.Mem, gen.StrWords(c12NameEnd, []byte("a-name-of-exactly-32-bytes-at-end"[:32]))...)
 	p.Mem = append(p.Mem, gen.MemWrite{Off: c12Huge, Word: common.Hash(new(uint256.Int).Lsh(uint256.NewInt(1), 40).Bytes32())})
 	p.Steps = []gen.JStep{
 		gen.RegisterValueVar(c12NameX, uint256.NewInt(0), 0, gen.TypeA),
@@ -115,6 +119,10 @@ func c12Steps() []c12Step {
 		{"IVVRJNAL hashed slot and key", s(0xe5, n(2), u256(common.HexToHash("0xc2575a0e9e593c00f959f8c92f12db2869c3395a3b0502d05e2516446f71f85b")), new(uint256.Int).SetAllOne(), A, B), true},
 		{"VVJNAL hashed slot", s(0xe6, c12Hashed, n(0), n(32), A), true},
 		{"VRJNAL hashed slot", s(0xe7, c12Hashed2, A), true},
+		{"RSVJNAL key ends at the end of memory", s(0xe0, n(c12NameEnd), n(3), A), true},
+		{"VSVJNAL key ends at the end of memory", s(0xe1, n(c12NameEnd), n(3), n(4), A), true},
+		{"IRVVJNAL key ends at the end of memory", s(0xe2, n(2), n(9), n(c12NameEnd), n(0), A, B), true},
+		{"IRVRJNAL key ends at the end of memory", s(0xe3, n(2), n(9), n(c12NameEnd), A, B), true},
 		// malformed
 		{"VVJNAL off32", s(0xe6, n(0), n(32), n(0), A), false},
 		{"VVJNAL off31 width32", s(0xe6, n(0), n(31), n(32), A), false},
@@ -411,7 +419,7 @@ func init() {
 		ID:        "C12",
 		Level:     "model_checking",
 		Technique: "bounded exhaustive enumeration of base programs x insertion position x journal instruction/operand set x fork x static flag; each program is executed on the real interpreter next to its pop-variant and the complete debug-tracer streams (stack, memory, pc, return data, refund, gas offsets) are compared event by event",
-		Rule:      "base programs = all sequences of length <= L over the 28-macro interacting alphabet (SEQ without GAS) behind a registration block; one journal instruction (13 well-formed operand sets over the 8 opcodes, 20 malformed operand sets covering each malformed class) inserted at every position; all 13 fork configurations; normal and static entry. P' = same program with the instruction replaced by one POP per operand (P is padded with 1-gas JUMPDESTs to the same layout). Well-formed: every event after the instruction equal (gas shifted by the constant fee-n-1 at depth 1, equal in callees), results, logs, state delta, refund equal; fee equal to the canonical fee and non-zero everywhere. Malformed: frame halts at the instruction, all gas consumed, no effects. non-trivial = distinct cases in which the journal instruction was reached",
+		Rule:      "base programs = all sequences of length <= L over the 28-macro interacting alphabet (SEQ without GAS) behind a registration block; one journal instruction (25 well-formed operand sets over the 8 opcodes incl. hashed slots and a key that ends exactly at the end of memory, 20 malformed operand sets covering each malformed class) inserted at every position; all 13 fork configurations; normal and static entry. P' = same program with the instruction replaced by one POP per operand (P is padded with 1-gas JUMPDESTs to the same layout). Well-formed: every event after the instruction equal (gas shifted by the constant fee-n-1 at depth 1, equal in callees), results, logs, state delta, refund equal; fee equal to the canonical fee and non-zero everywhere. Malformed: frame halts at the instruction, all gas consumed, no effects. non-trivial = distinct cases in which the journal instruction was reached",
 		Assumptions: []string{
 			"base programs longer than L and operand values outside the listed sets are not covered",
 			"GAS is excluded from the base alphabet because it legitimately observes the fee",
